@@ -115,7 +115,14 @@ def mk_tr(c, m):
             return OV("violation")
 
         def maxcv(self, x, cub_val=None, ceq_val=None):
-            ev.append(("maxcv", cub_val is not None and ceq_val is not None))
+            ev.append(("maxcv", cub_val is not None and ceq_val is not None, getattr(x, "idx", None), getattr(cub_val, "idx", None),
+                       getattr(ceq_val, "idx", None)))
+            ids = [i_ for i_ in (getattr(x, "idx", None), getattr(cub_val, "idx", None), getattr(ceq_val, "idx", None)) if i_ is not None]
+            if len(ids) >= 2:
+                # asked at the call (inside a cut loop the path ends with the iteration): the point and the two rows of values handed
+                # to one call belong to one interpolation index
+                c.oblige("C18.framework.violation_from_the_values_of_one_point", z3.And(*[ids[0] == j_ for j_ in ids[1:]]), props=["C18"],
+                         note="the violation of an interpolation point is computed with the recorded values of another point")
             r = SF.fresh("maxcv")
             c.assume(z3.Or(r.nan, r.r >= 0))
             return r
@@ -123,14 +130,28 @@ def mk_tr(c, m):
     tr._pb = PB()
 
     class Table:
+        """value tables of the models: a row / entry remembers the index of the interpolation point it belongs to"""
+
         def __getitem__(self, k):
-            return OV("row") if isinstance(k, tuple) else SF.fresh("fun_val", finite=True)
+            if not isinstance(k, tuple):
+                return SF.fresh("fun_val", finite=True)
+            r = OV("row")
+            try:
+                r.idx = it(k[0])
+            except Exception:  # noqa
+                r.idx = None
+            return r
+
+    def point(k):
+        p_ = OV("point")
+        p_.idx = it(k)
+        return p_
 
     class Models:
         def __init__(self):
             self.npt, self.n = npt, n
             self.fun_val, self.cub_val, self.ceq_val = Table(), Table(), Table()
-            self.interpolation = types.SimpleNamespace(point=lambda k: OV("point"), x_base=OV("x_base"), xpt=OV("xpt"))
+            self.interpolation = types.SimpleNamespace(point=point, x_base=OV("x_base"), xpt=OV("xpt"))
 
         def __getattr__(self, nm):
             if nm.startswith(("fun", "cub", "ceq")):
@@ -182,6 +203,10 @@ class SetBestIndex(Unit):
 
         def merit(self, x, fun_val=None, cub_val=None, ceq_val=None):
             mer.append(fun_val is not None and cub_val is not None and ceq_val is not None)
+            ids = [i_ for i_ in (getattr(x, "idx", None), getattr(cub_val, "idx", None), getattr(ceq_val, "idx", None)) if i_ is not None]
+            if len(ids) >= 2:
+                c.oblige("C18.set_best_index.merit_from_the_values_of_one_point", z3.And(*[ids[0] == j_ for j_ in ids[1:]]), props=["C18"],
+                         note="the merit value of an interpolation point is computed with the recorded values of another point")
             return SF.fresh("merit")
         m.TrustRegion.merit = merit
         try:
@@ -423,3 +448,42 @@ class IndexToRemove(Unit):
 
 
 UNITS.append(IndexToRemove())
+
+
+# ---- bounded complement: set_best_index on concrete tables (the arg-min clause of C18 is not proved) ----------------------------------------
+class BestIndexBounded(Unit):
+    name = "framework.set_best_index_bounded"
+    props = ("C18",)
+    fmodel = "ORDER"
+    functions = [("cobyqa.framework", "TrustRegion.set_best_index"), ("cobyqa.framework", "TrustRegion.merit")]
+    replay = ("contracts.replays", "best_index_audit")
+    bounded = ("native run-time contract on 3000 seeded value tables (2..7 points, 0..2 nonlinear inequality and equality values each, many "
+               "exact ties in the merit value, penalty 0 or positive): the centre chosen is the one the documented rule gives")
+
+    def run(self, c):
+        import os
+        import numpy as np
+        from pyvc.transform import ensure_repo_on_path
+        from .subsolvers_bounded import rng_for
+        from .replays import best_index_audit
+        ensure_repo_on_path()
+        rng = rng_for(self.name)
+        N = 30000 if os.environ.get("VERIF_TIER") == "thorough" else 3000
+        bad = None
+        for k in range(N):
+            npt = int(rng.integers(2, 8))
+            mub, meq = int(rng.integers(0, 3)), int(rng.integers(0, 3))
+            tie = rng.random() < 0.6
+            fun = rng.integers(0, 3, npt).astype(float) if tie else rng.standard_normal(npt)
+            cub = rng.integers(-2, 4, (npt, mub)).astype(float)
+            ceq = rng.integers(-3, 4, (npt, meq)).astype(float)
+            pen = float(rng.choice([0.0, 0.0, 1.0, 2.5]))
+            case = dict(fun=fun.tolist(), cub=cub.tolist(), ceq=ceq.tolist(), penalty=pen, best0=int(rng.integers(0, npt)))
+            r = best_index_audit(**case)
+            if r["reproduced"] and bad is None:
+                bad = (k, case, r["observed"])
+        c.oblige(f"C18.set_best_index.centre_is_the_least_merit_point[{N} cases]", z3.BoolVal(bad is None), kind="bounded", props=["C18"],
+                 note=None if bad is None else f"case {bad[0]}: {bad[1]} -> {bad[2]}"[:1500], replay_inputs=None if bad is None else bad[1])
+
+
+UNITS.append(BestIndexBounded())
